@@ -69,6 +69,7 @@ KINDS = {
     'header_attr': ('select a.name, a.id', {'header': True}),
     'init_code': ('select foo(a1)', {'init': 'def foo(x):\n    return x + "!"'}),
     'uses_foo': ('select foo(a1)', {}),
+    'init_code_raises': ('select a2, ratio(a1)', {'init': 'def ratio(x):\n    y = int(x)\n    return 10.0 / y', 'poison': True}),
     'init_import': ('select math.floor(float(a1))', {'init': 'import math'}),
     'uses_math': ('select math.floor(float(a1))', {}),
     'err_parse': ('select a1 limit x', {}),
@@ -259,6 +260,7 @@ def make_csv_sim_classes(t):
 
 
 _sim_classes = {}
+_hist = {'con': None}
 
 
 def sim_classes(t):
@@ -322,23 +324,30 @@ def run_op(t, op, baton=None, tid=0):
             return norm(['ok', res.values.tolist(), [str(c) for c in res.columns], warnings])
         if api == 'sqlite':
             import sqlite3
-            w = fsseam.reset_work_dir()
-            db = os.path.join(w, 'db.sqlite')
-            con = sqlite3.connect(db)
-            con.execute('create table ta (id text, name text, tag text)')
-            con.executemany('insert into ta values (?,?,?)', [tuple((list(r) + [None, None, None])[:3]) for r in rows])
-            con.execute('create table tb (key text, jval text, jtag text)')
-            con.executemany('insert into tb values (?,?,?)', [tuple((list(r) + [None, None, None])[:3]) for r in (join_rows or [])])
+            slot = op.get('slot', 0)
+            ta, tb = 'ta%d' % slot, 'tb%d' % slot
+            shared = _hist.get('con')
+            if shared is not None:
+                con = shared                      # one caller-owned connection lent to every sqlite query of the history
+                out_path = os.path.join(fsseam.scratch_dir(), 'hist_sqlite_out.csv')
+            else:
+                w = fsseam.reset_work_dir()
+                con = sqlite3.connect(os.path.join(w, 'db.sqlite'))
+                out_path = os.path.join(w, 'sqlite_out.csv')
+            con.execute('create table %s (id text, name text, tag text)' % ta)
+            con.executemany('insert into %s values (?,?,?)' % ta, [tuple((list(r) + [None, None, None])[:3]) for r in rows])
+            con.execute('create table %s (key text, jval text, jtag text)' % tb)
+            con.executemany('insert into %s values (?,?,?)' % tb, [tuple((list(r) + [None, None, None])[:3]) for r in (join_rows or [])])
             con.commit()
-            out_path = os.path.join(w, 'sqlite_out.csv')
             try:
                 with fsseam.ProcessSeam(t) as seam:
-                    t.sqlite.query_sqlite_to_csv(op['query'].replace(' B on ', ' tb on '), con, 'ta', out_path, ',', 'quoted_rfc', 'utf-8', warnings, op.get('init', ''))
+                    t.sqlite.query_sqlite_to_csv(op['query'].replace(' B on ', ' %s on ' % tb), con, ta, out_path, ',', 'quoted_rfc', op.get('sqlite_enc', 'utf-8'), warnings, op.get('init', ''))
                 seam.restore_hook()
             finally:
-                con.close()
+                if shared is None:
+                    con.close()
             with open(out_path, 'rb') as f:
-                return norm(['ok', f.read().decode('utf-8', 'replace'), warnings], w)
+                return norm(['ok', f.read().hex(), warnings], fsseam.scratch_dir())
         # csv / cli
         w = fsseam.reset_work_dir()
         in_rows = ([header] if header else []) + rows
@@ -410,10 +419,21 @@ def child_history(sc):
     t = core.load_tree()
     outs = []
     states = []
+    if any(op['api'] == 'sqlite' for op in sc['ops']):
+        import sqlite3
+        path = os.path.join(fsseam.scratch_dir(), 'hist.sqlite')
+        if os.path.exists(path):
+            os.unlink(path)
+        _hist['con'] = sqlite3.connect(path)
     before = process_state()
-    for op in sc['ops']:
-        outs.append(run_op(t, op))
-        states.append(module_state(t))
+    try:
+        for op in sc['ops']:
+            outs.append(run_op(t, op))
+            states.append(module_state(t))
+    finally:
+        if _hist.get('con') is not None:
+            _hist['con'].close()
+            _hist['con'] = None
     after = process_state()
     changed = sorted(k for k in before if before[k] != after[k])
     return {'outcomes': outs, 'states': states, 'process_state_changed': changed}
@@ -541,7 +561,14 @@ def generate(rng, tier, idx):
     if rng.random() < 0.4:
         nops = rng.choice([1, 2, 2, 3, 3, 4, 5, 6])
         pool = 40 if tier == 'quick' else 400
-        ops = [gen_op(rng, pool=pool) for _ in range(nops)]
+        if rng.random() < 0.1:
+            # every query of the history goes to sqlite over one connection owned by the caller, mixing output encodings,
+            # failing and succeeding queries
+            nops = max(nops, 2)
+            pick = ['simple', 'star', 'where', 'err_runtime', 'err_parse', 'err_syntax', 'err_agg_misuse', 'order', 'distinct', 'agg_group', 'update', 'join', 'left_join', 'err_strict']
+            ops = [gen_op(rng, rng.choice(pick), api='sqlite', pool=pool) for _ in range(nops)]
+        else:
+            ops = [gen_op(rng, pool=pool) for _ in range(nops)]
         if rng.random() < 0.35:
             # the same query text again over another table / column order / front-end: what a cache keyed by
             # (part of) the query text would confuse
@@ -554,6 +581,14 @@ def generate(rng, tier, idx):
             ops.insert(rng.randrange(len(ops) + 1), gen_op(rng, 'err_join_table_missing', api=api, pool=pool))
             ops.append(gen_op(rng, 'join', api=api, pool=pool))
             ops = ops[:7]
+        ops = [dict(o) for o in ops]
+        for i, o in enumerate(ops):
+            if o['api'] == 'sqlite':
+                o['slot'] = i
+                o['sqlite_enc'] = rng.choice(['utf-8', 'utf-8', 'latin-1'])
+                if rng.random() < 0.5 and o['rows']:
+                    o['rows'] = [list(r) for r in o['rows']]
+                    o['rows'][rng.randrange(len(o['rows']))][1] = rng.choice(['v\u00e9', 'Zo\u00eb', 'v1'])
         return {'part': 'A', 'ops': ops}
     n = 2 if rng.random() < (0.85 if tier == 'quick' else 0.7) else 3
     kinds = rng.sample(THREAD_KINDS, n)
@@ -561,8 +596,8 @@ def generate(rng, tier, idx):
     if same_family:
         # bias towards pairs that share a mechanism (aggregation / unnest / like / join)
         fam = rng.choice([['agg_group', 'agg_plain', 'agg_median', 'agg_any', 'join_agg', 'agg_float', 'agg_float_group', 'err_agg_nonnumeric'], ['unnest', 'unnest2', 'err_two_unnest'],
-                          ['like', 'like2', 'where'], ['init_code', 'uses_foo', 'init_import', 'uses_math'], ['join', 'left_join', 'join_two_keys', 'join_agg', 'join_header'],
-                          ['err_runtime', 'agg_group', 'unnest', 'err_agg_misuse'], ['update', 'update_nu', 'distinct', 'top', 'limit_distinct']])
+                          ['like', 'like2', 'where'], ['init_code', 'uses_foo', 'init_import', 'uses_math', 'init_code_raises'], ['join', 'left_join', 'join_two_keys', 'join_agg', 'join_header'],
+                          ['err_runtime', 'agg_group', 'unnest', 'err_agg_misuse', 'init_code_raises'], ['update', 'update_nu', 'distinct', 'top', 'limit_distinct']])
         kinds = rng.sample(fam, min(n, len(fam)))
     ops = [gen_op(rng, k, api=rng.choice(['iter', 'iter', 'iter', 'csviter']), max_rows=4, pool=(40 if tier == 'quick' else 400)) for k in kinds]
     if len(ops) == 2 and rng.random() < (0.004 if tier == 'quick' else 0.03):
